@@ -179,16 +179,14 @@ def _encode_varint(value: int) -> bytes:
     Returns:
       Encoded bytes
     """
-    if value == 0:
-        return b"\x00"
-
-    result = []
+    # This is git's varint (varint.c): big-endian groups of 7 bits where each
+    # continuation step carries an implicit +1, NOT little-endian LEB128.
+    result = [value & 0x7F]
+    value >>= 7
     while value > 0:
-        byte = value & 0x7F  # Take lower 7 bits
+        value -= 1
+        result.insert(0, 0x80 | (value & 0x7F))
         value >>= 7
-        if value > 0:
-            byte |= 0x80  # Set continuation bit
-        result.append(byte)
 
     return bytes(result)
 
@@ -203,14 +201,18 @@ def _decode_varint(data: bytes, offset: int = 0) -> tuple[int, int]:
       tuple of (decoded_value, new_offset)
     """
     value = 0
-    shift = 0
+    first = True
     pos = offset
 
     while pos < len(data):
         byte = data[pos]
         pos += 1
-        value |= (byte & 0x7F) << shift
-        shift += 7
+        if first:
+            value = byte & 0x7F
+            first = False
+        else:
+            # git's varint.c: each continuation carries an implicit +1
+            value = ((value + 1) << 7) | (byte & 0x7F)
         if not (byte & 0x80):  # No continuation bit
             break
 
@@ -299,7 +301,7 @@ def _decompress_path_from_stream(
     """
     # Decode the varint for remove_len by reading byte by byte
     remove_len = 0
-    shift = 0
+    first = True
     bytes_consumed = 0
 
     while True:
@@ -308,8 +310,12 @@ def _decompress_path_from_stream(
             raise ValueError("Unexpected end of file while reading varint")
         byte = byte_data[0]
         bytes_consumed += 1
-        remove_len |= (byte & 0x7F) << shift
-        shift += 7
+        if first:
+            remove_len = byte & 0x7F
+            first = False
+        else:
+            # git's varint.c: each continuation carries an implicit +1
+            remove_len = ((remove_len + 1) << 7) | (byte & 0x7F)
         if not (byte & 0x80):  # No continuation bit
             break
 
